@@ -10,7 +10,7 @@ from pv.runner import Part, Result
 ID = 'C14'
 TITLE = 'Isotopic distributions are normalised, centred on the right masses and complete'
 RULE = ('random part: composition over C,H,N,O,S,P (+Se,Cl,Br,Fe) with integer or fractional counts, optional e/p/n and '
-        'isotope-labelled keys x pruning/normalisation/resolution options; exhaustive part: every composition over '
+        'isotope-labelled keys (neutron view always compared with the binned mass view for those) x pruning/normalisation/resolution options; exhaustive part: every composition over '
         'C,H,N,O,S,P with at most 12 atoms compared with an exact multinomial expansion; non-trivial = >= 2 elements and '
         '>= 10 atoms, or a particle entry, or a fractional count')
 ASSUMPTIONS = [
@@ -125,7 +125,8 @@ def check_case(case) -> Result:
             r.fail('abundance-weighted mean equals the average mass', sig, expected=avg, got=mean, tol=tol, **ctx)
 
     # neutron-offset view == mass view binned by nominal mass
-    if case['compare_views'] and int_formula and elements and all(e in LIGHT for e in elements):
+    labelled = any(e[0].isdigit() or e in 'DT' for e in elements)
+    if (case['compare_views'] or labelled) and int_formula and elements and all(e in LIGHT or e[0].isdigit() or e in 'DT' for e in elements):
         kw2 = dict(distribution_resolution=max(res, 3), distribution_abundance=1.0, is_abundance_sum=True)
         mv = pt.isotopic_distribution(dict(comp), use_neutron_count=False, **kw2)
         nv = pt.isotopic_distribution(dict(comp), use_neutron_count=True, **kw2)
@@ -200,12 +201,22 @@ def check_merge(case) -> Result:
     for d in ds:
         for m, a in d:
             exp[m] = exp.get(m, 0.0) + a
-    got = pt.merge_isotopic_distributions(*ds)
+    prec = case.get('precision')
+    if prec is not None:
+        exp = {}
+        for d in ds:
+            for m, a in d:
+                exp[round(m, prec)] = exp.get(round(m, prec), 0.0) + a
+        got = pt.merge_isotopic_distributions(*ds, precision=prec)
+    else:
+        got = pt.merge_isotopic_distributions(*ds)
     r.nontrivial = len(ds) >= 2 and len(exp) < sum(len(d) for d in ds)
-    r.classes = [f'n={len(ds)}']
+    within = prec is not None and any(len({round(m, prec) for m, _a in d}) < len(d) for d in ds)
+    r.classes = [f'n={len(ds)}', f'precision={prec}'] + (['peaks-of-one-pattern-collapse'] if within else [])
     ok = [m for m, _a in got] == sorted(exp) and all(abs(a - exp[m]) <= 1e-12 * max(1, abs(exp[m])) for m, a in got)
     if not ok:
-        r.fail('merging adds abundances at equal masses, sorted by mass', 'C14/merge/wrong', dists=ds, got=got)
+        r.fail('merging adds abundances at equal masses, sorted by mass', 'C14/merge/wrong' + ('/precision' if prec is not None else ''),
+               dists=ds, precision=prec, got=got)
     return r
 
 
@@ -264,9 +275,10 @@ def exact_cases():
 
 
 def merge_strategy():
-    peak = st.tuples(st.sampled_from([100.0, 101.0, 101.5, 102.0, 100.25]) | st.floats(50, 200, allow_nan=False),
+    peak = st.tuples(st.sampled_from([100.0, 101.0, 101.5, 102.0, 100.25, 100.04, 101.004, 101.0004, 100.96]) | st.floats(50, 200, allow_nan=False),
                      st.floats(0, 1, allow_nan=False)).map(list)
-    return st.fixed_dictionaries({'dists': st.lists(st.lists(peak, max_size=6, unique_by=lambda p: p[0]), min_size=0, max_size=4)})
+    return st.fixed_dictionaries({'dists': st.lists(st.lists(peak, max_size=6, unique_by=lambda p: p[0]), min_size=0, max_size=4),
+                                  'precision': st.sampled_from([None, None, 0, 1, 2, 3])})
 
 
 def parts(tier):
